@@ -160,6 +160,9 @@ var concurrentScenarios = []string{
 
 // degenerate forms: each is a family the grammar accepts (or nearly) with an empty / odd part
 var degenerateForms = []string{
+	// a dotted type path through something that is not a module fails - and leaves every scope usable
+	"module zp { zc = 1 }\ntry {\nmake(zp.zc.T)\n} catch e {\n}\nzp.zc = 2\nzp.zc", "module zp { zc = 1 }\ntry {\nx = new(zp.zc.T)\n} catch e {\n}\nzp.d = 2", "module zp { module q { zc = 1 } }\ntry {\nmake(zp.q.zc.T)\n} catch e {\n}\nzp.q.zc = 2",
+	"module zp { zc = 1 }\ntry {\nmake(zp.nosuch.T)\n} catch e {\n}\nzp.zc = 2", "zv = 1\ntry {\nmake(zv.T)\n} catch e {\n}\nzv = 2", "module zp { zc = 1 }\ntry {\nmake([]zp.zc.T)\n} catch e {\n}\ntry {\nmake(type zp.zc.T, 1)\n} catch e {\n}\nzp.zc = 3",
 	// a module used as a TYPE: the zero value of that type is a nil scope pointer
 	"module zm { x = 1 }\nmake(type ZM, zm)\nza = make([]ZM, 1)\nza[0].x", "module zm { x = 1 }\nmake(type ZM, zm)\nza = make([]ZM, 1)\nza[0].x = 2",
 	"module zm { x = 1 }\nmake(type ZM, zm)\nza = make([]ZM, 1)\nzb = za[0]\nzb", "module zm { x = 1 }\nmake(type ZM, zm)\nza = make([]ZM, 1)\nvar zb = za[0]\nzb.x",
@@ -307,6 +310,12 @@ func streamNoPanic(o *Out, r *rand.Rand, n int, thorough bool) {
 				case cls2 == "crashed" && (strings.Contains(again, "out of memory") || strings.Contains(again, "cannot allocate") || strings.Contains(again, "stack exceeds") || strings.Contains(again, "stack overflow")):
 					// memory / stack exhaustion is outside the guarantee
 					o.Sum.Hist["outcome:resource-exhaustion(excluded)"]++
+				case (cls2 == "stuck" || cls2 == "timeout") && !strings.Contains(it.src, "for") && !strings.Contains(it.src, "<-") && !strings.Contains(it.src, "func") &&
+					!strings.Contains(it.src, "go ") && !strings.Contains(it.src, "leep") && !strings.Contains(it.src, "range") && !strings.Contains(it.src, "*") && len(it.src) < 400:
+					// a short straight-line text - no loop, no function, no channel operation, no repetition - that does not come back has wedged
+					// the interpreter (a lock left held): the host's Execute never returns
+					o.Sum.Hist["outcome:wedged"]++
+					o.Fail(Failure{Oracle: "host-survives", Key: "host-wedged:" + firstWords(it.src, 4), Input: it.src, Detail: "a straight-line script did not return within 6s when run alone in a fresh process: " + again})
 				case cls2 == "stuck" || cls2 == "timeout":
 					// not returning in time is C02's business (defers piled up by an endless loop run after the interrupt); no fault of the host
 					o.Sum.Hist["outcome:stuck-confirmed"]++
